@@ -288,16 +288,16 @@ class Agent:
         """
         try:
             handlers = self.eventHandlers[self.state]
-
-            while len(self.events) > 0:
-                event = self.events.pop()
-
-                try:
-                    handlers[event.name](event)
-                except KeyError as e:
-                    pass
         except KeyError as e:
-            pass
+            handlers = {}
+
+        while len(self.events) > 0:
+            event = self.events.pop()
+
+            try:
+                handlers[event.name](event)
+            except KeyError as e:
+                pass
 
     def act(self, time, round_no, step_no):
         """Called by the scheduler every timestep.
